@@ -91,7 +91,7 @@ impl Driver for C04 {
         5.0
     }
     fn units(&self, tier: Tier) -> usize {
-        tier.pick(16000, 160000)
+        tier.pick(16000, 640000)
     }
     fn run_unit(&self, ctx: &Ctx, out: &mut UnitOut, start: usize, only: Option<usize>) {
         let mut rng = unit_rng(ctx, "C04", out.unit);
@@ -258,7 +258,7 @@ impl Driver for C05 {
         5.0
     }
     fn units(&self, tier: Tier) -> usize {
-        tier.pick(16000, 160000)
+        tier.pick(16000, 640000)
     }
     fn run_unit(&self, ctx: &Ctx, out: &mut UnitOut, start: usize, only: Option<usize>) {
         let mut rng = unit_rng(ctx, "C05", out.unit);
